@@ -9,7 +9,7 @@ C01 layer 5, loop layer: the flat instruction stream with forward jumps and `Jum
 
 and a fault of the structured code is a fault of the flat run.
 -/
-import KotoVerif.Model.CompileLoop
+import KotoVerif.Lemmas.C01LoopSem
 
 namespace KotoVerif.Compile
 
@@ -225,5 +225,386 @@ theorem base_sim : ∀ (c : Code) (prog : List LFlat) (base : Nat) (σ : Regs S)
         | some σ1 =>
           simp only [hee] at he1 ⊢
           exact (hj.trans he1).cast (by omega)
+
+/-! ## loop code -/
+
+theorem Res.andThen_eq_err {α : Type} {r : Res (Sig × α)} {k : α → Res (Sig × α)}
+    (h : r.andThen k = .err) : r = .err ∨ ∃ a, r = .ok (.normal, a) ∧ k a = .err := by
+  unfold Res.andThen at h
+  split at h
+  · rename_i a; exact Or.inr ⟨a, rfl, h⟩
+  · exact Or.inl h
+
+theorem Res.loopNext_eq_err {α : Type} {r : Res (Sig × α)} {k : α → Res (Sig × α)}
+    (h : r.loopNext k = .err) : r = .err ∨ ∃ s a, s ≠ .brk ∧ r = .ok (s, a) ∧ k a = .err := by
+  unfold Res.loopNext at h
+  split at h
+  · cases h
+  · rename_i s a hne
+    refine Or.inr ⟨s, a, ?_, rfl, h⟩
+    intro hs; subst hs; exact hne rfl
+  · exact Or.inl h
+
+theorem flatHdr_length (cond : Option (Code × Reg × Bool)) (bl : Nat) :
+    (flatHdr cond bl).length = hdrLen cond := by
+  cases cond with
+  | none => rfl
+  | some p => obtain ⟨cc, r, neg⟩ := p; simp [flatHdr, hdrLen]
+
+theorem sizeL_flatAux : ∀ (c : LCode) (pre post : Nat), (flatAux c pre post).length = sizeL c := by
+  intro c
+  induction c with
+  | base c => intro pre post; simp [flatAux, sizeL]
+  | seq a b iha ihb => intro pre post; simp [flatAux, sizeL, iha, ihb]
+  | ifElse r t wj e iht ihe =>
+    intro pre post
+    cases wj <;> simp [flatAux, sizeL, iht, ihe] <;> omega
+  | loop cond body ih => intro pre post; simp [flatAux, sizeL, ih, flatHdr_length]; omega
+  | brk => intro pre post; rfl
+  | cont => intro pre post; rfl
+
+/-- the outcome of a loop header at `base`: on to the body, or out of the loop (over the body of
+`bl` instructions and the final JumpBack), or a fault -/
+def HdrSim (S : Sem) (prog : List LFlat) (base : Nat) (cond : Option (Code × Reg × Bool)) (bl : Nat)
+    (σ : Regs S) : Prop :=
+  match execCond S cond σ with
+  | some (true, σ1) => Steps S prog base σ (base + hdrLen cond) σ1
+  | some (false, σ1) => Steps S prog base σ (base + hdrLen cond + bl + 1) σ1
+  | none => Fails S prog base σ
+
+theorem hdr_sim (cond : Option (Code × Reg × Bool)) (bl : Nat) (prog : List LFlat) (base : Nat) (σ : Regs S)
+    (h : At prog base (flatHdr cond bl)) : HdrSim S prog base cond bl σ := by
+  cases cond with
+  | none =>
+    simp only [HdrSim, execCond, hdrLen, Nat.add_zero]
+    exact Steps.refl _ _ _
+  | some p =>
+    obtain ⟨cc, r, neg⟩ := p
+    simp only [flatHdr] at h
+    have hb := base_sim (S := S) cc prog base σ h.left
+    have hj := h.right.head
+    simp only [List.length_map] at hj
+    simp only [BaseSim] at hb
+    simp only [HdrSim, execCond, hdrLen]
+    cases he : exec S cc σ with
+    | none => simp only [he] at hb ⊢; exact hb
+    | some σ1 =>
+      simp only [he] at hb ⊢
+      cases neg with
+      | false =>
+        simp only [Bool.false_eq_true, if_false] at hj
+        have hs := step_jif (S := S) (σ := σ1) hj
+        by_cases ht : S.truthy (σ1 r) = true
+        · simp only [ht, if_true] at hs
+          simp only [ht, Bool.bne_false]
+          exact (hb.trans hs).cast (by omega)
+        · simp only [ht, Bool.false_eq_true, if_false] at hs
+          have ht' : S.truthy (σ1 r) = false := by simpa using ht
+          simp only [ht', Bool.bne_false]
+          exact (hb.trans hs).cast (by omega)
+      | true =>
+        simp only [if_true] at hj
+        have hs := step_jit (S := S) (σ := σ1) hj
+        by_cases ht : S.truthy (σ1 r) = true
+        · simp only [ht, if_true] at hs
+          simp only [ht, bne_self_eq_false]
+          exact (hb.trans hs).cast (by omega)
+        · simp only [ht, Bool.false_eq_true, if_false] at hs
+          have ht' : S.truthy (σ1 r) = false := by simpa using ht
+          simp only [ht']
+          exact (hb.trans hs).cast (by omega)
+
+/-- where a piece of code at `base` ends up, by completion signal -/
+def target (base pre post : Nat) (c : LCode) : Sig → Nat
+  | .normal => base + sizeL c
+  | .brk => base + sizeL c + post
+  | .cont => base - pre
+
+theorem flat_sim : ∀ (n : Nat) (c : LCode) (pre post : Nat) (prog : List LFlat) (base : Nat) (σ : Regs S),
+    At prog base (flatAux c pre post) → pre ≤ base →
+    (∀ sg σ', execL S n c σ = .ok (sg, σ') → Steps S prog base σ (target base pre post c sg) σ') ∧
+    (execL S n c σ = .err → Fails S prog base σ) := by
+  intro n
+  induction n with
+  | zero =>
+    intro c pre post prog base σ _ _
+    exact ⟨fun _ _ h => by simp [execL] at h, fun h => by simp [execL] at h⟩
+  | succ n ih =>
+    intro c pre post prog base σ hat hpre
+    cases c with
+    | base c =>
+      have hb := base_sim (S := S) c prog base σ (by simpa [flatAux] using hat)
+      simp only [BaseSim] at hb
+      rw [execL_base]
+      cases he : exec S c σ with
+      | none => simp only [he] at hb ⊢; exact ⟨fun _ _ h => (by cases h), fun _ => hb⟩
+      | some σ1 =>
+        simp only [he] at hb ⊢
+        refine ⟨fun sg σ' h => ?_, fun h => by cases h⟩
+        simp only [Res.ok.injEq, Prod.mk.injEq] at h
+        obtain ⟨rfl, rfl⟩ := h
+        exact hb
+    | brk =>
+      rw [execL_brk]
+      refine ⟨fun sg σ' h => ?_, fun h => by cases h⟩
+      simp only [Res.ok.injEq, Prod.mk.injEq] at h
+      obtain ⟨rfl, rfl⟩ := h
+      have hs := step_jump (S := S) (σ := σ) (At.head (L := []) hat)
+      exact hs.cast (by simp only [target, sizeL]; try omega)
+    | cont =>
+      rw [execL_cont]
+      refine ⟨fun sg σ' h => ?_, fun h => by cases h⟩
+      simp only [Res.ok.injEq, Prod.mk.injEq] at h
+      obtain ⟨rfl, rfl⟩ := h
+      have hs := step_jumpBack (S := S) (σ := σ) (At.head (L := []) hat) (by omega)
+      exact hs.cast (by simp only [target]; omega)
+    | seq a b =>
+      simp only [flatAux] at hat
+      have hla : (flatAux a pre (sizeL b + post)).length = sizeL a := sizeL_flatAux _ _ _
+      have iha := ih a pre (sizeL b + post) prog base σ hat.left hpre
+      have ihb := fun σ1 => ih b (pre + sizeL a) post prog (base + sizeL a) σ1
+        (by have := hat.right; rwa [hla] at this) (by omega)
+      rw [execL_seq]
+      constructor
+      · intro sg σ' h
+        rcases Res.andThen_ok h with ⟨σ1, h1, h2⟩ | ⟨hne, h1⟩
+        · have s1 := iha.1 _ _ h1
+          have s2 := (ihb σ1).1 _ _ h2
+          exact (s1.trans s2).cast (by cases sg <;> simp only [target, sizeL] <;> omega)
+        · have s1 := iha.1 _ _ h1
+          exact s1.cast (by cases sg <;> simp only [target, sizeL] <;> first | omega | exact absurd rfl hne)
+      · intro h
+        rcases Res.andThen_eq_err h with h1 | ⟨σ1, h1, h2⟩
+        · exact iha.2 h1
+        · exact (iha.1 _ _ h1).fails ((ihb σ1).2 h2)
+    | ifElse r t wj e =>
+      cases wj with
+      | true =>
+        simp only [flatAux] at hat
+        have hlt : (flatAux t (pre + 1) (1 + sizeL e + post)).length = sizeL t := sizeL_flatAux _ _ _
+        have hat' := hat.tail
+        have iht := ih t (pre + 1) (1 + sizeL e + post) prog (base + 1) σ hat'.left (by omega)
+        have hjmp : prog[base + 1 + sizeL t]? = some (LFlat.jump (sizeL e)) := by
+          have := hat'.right.head; rwa [hlt] at this
+        have ihe := ih e (pre + 1 + sizeL t + 1) post prog (base + 1 + sizeL t + 1) σ
+          (by have := hat'.right.tail; rwa [hlt] at this) (by omega)
+        have hj := step_jif (S := S) (σ := σ) hat.head
+        rw [execL_ifElse]
+        by_cases htr : S.truthy (σ r) = true
+        · simp only [htr, if_true] at hj ⊢
+          constructor
+          · intro sg σ' h
+            rcases Res.andThen_ok h with ⟨σ1, h1, h2⟩ | ⟨hne, h1⟩
+            · simp only [Res.ok.injEq, Prod.mk.injEq] at h2
+              obtain ⟨rfl, rfl⟩ := h2
+              exact ((hj.trans (iht.1 _ _ h1)).trans (step_jump hjmp)).cast
+                (by simp only [target, sizeL, if_true]; omega)
+            · exact (hj.trans (iht.1 _ _ h1)).cast
+                (by cases sg <;> simp only [target, sizeL, if_true] <;> first | omega | exact absurd rfl hne)
+          · intro h
+            rcases Res.andThen_eq_err h with h1 | ⟨σ1, _, h2⟩
+            · exact hj.fails (iht.2 h1)
+            · cases h2
+        · simp only [htr, Bool.false_eq_true, if_false] at hj ⊢
+          constructor
+          · intro sg σ' h
+            exact ((hj.cast (by omega)).trans (ihe.1 _ _ h)).cast
+              (by cases sg <;> simp only [target, sizeL, if_true] <;> omega)
+          · intro h
+            exact (hj.cast (by omega)).fails (ihe.2 h)
+      | false =>
+        simp only [flatAux] at hat
+        have hlt : (flatAux t (pre + 1) (sizeL e + post)).length = sizeL t := sizeL_flatAux _ _ _
+        have hat' := hat.tail
+        have iht := ih t (pre + 1) (sizeL e + post) prog (base + 1) σ hat'.left (by omega)
+        have ihe := fun σ1 => ih e (pre + 1 + sizeL t) post prog (base + 1 + sizeL t) σ1
+          (by have := hat'.right; rwa [hlt] at this) (by omega)
+        have hj := step_jif (S := S) (σ := σ) hat.head
+        rw [execL_ifElse]
+        by_cases htr : S.truthy (σ r) = true
+        · simp only [htr, if_true, Bool.false_eq_true, if_false] at hj ⊢
+          constructor
+          · intro sg σ' h
+            rcases Res.andThen_ok h with ⟨σ1, h1, h2⟩ | ⟨hne, h1⟩
+            · exact ((hj.trans (iht.1 _ _ h1)).trans ((ihe σ1).1 _ _ h2)).cast
+                (by cases sg <;> simp only [target, sizeL, Bool.false_eq_true, if_false] <;> omega)
+            · exact (hj.trans (iht.1 _ _ h1)).cast
+                (by cases sg <;> simp only [target, sizeL, Bool.false_eq_true, if_false] <;>
+                      first | omega | exact absurd rfl hne)
+          · intro h
+            rcases Res.andThen_eq_err h with h1 | ⟨σ1, h1, h2⟩
+            · exact hj.fails (iht.2 h1)
+            · exact (hj.trans (iht.1 _ _ h1)).fails ((ihe σ1).2 h2)
+        · simp only [htr, Bool.false_eq_true, if_false] at hj ⊢
+          constructor
+          · intro sg σ' h
+            exact (hj.trans ((ihe σ).1 _ _ h)).cast
+              (by cases sg <;> simp only [target, sizeL, Bool.false_eq_true, if_false] <;> omega)
+          · intro h
+            exact hj.fails ((ihe σ).2 h)
+    | loop cond body =>
+      have hself := fun σ2 => ih (.loop cond body) pre post prog base σ2 hat hpre
+      simp only [flatAux] at hat
+      have hl1 : (flatHdr cond (sizeL body)).length = hdrLen cond := flatHdr_length _ _
+      have hl2 : (flatAux body (hdrLen cond) 1).length = sizeL body := sizeL_flatAux _ _ _
+      have hh := hdr_sim (S := S) cond (sizeL body) prog base σ hat.left.left
+      have hbody := fun σ1 => ih body (hdrLen cond) 1 prog (base + hdrLen cond) σ1
+        (by have := hat.left.right; rwa [hl1] at this) (by omega)
+      have hjb : prog[base + hdrLen cond + sizeL body]? = some (LFlat.jumpBack (hdrLen cond + sizeL body + 1)) := by
+        have := hat.right.head
+        rwa [List.length_append, hl1, hl2, ← Nat.add_assoc] at this
+      simp only [HdrSim] at hh
+      rw [execL_loop]
+      cases hc : execCond S cond σ with
+      | none => simp only [hc] at hh ⊢; exact ⟨fun _ _ h => (by cases h), fun _ => hh⟩
+      | some p =>
+        obtain ⟨go, σ1⟩ := p
+        cases go with
+        | false =>
+          simp only [hc] at hh ⊢
+          refine ⟨fun sg σ' h => ?_, fun h => by cases h⟩
+          simp only [Res.ok.injEq, Prod.mk.injEq] at h
+          obtain ⟨rfl, rfl⟩ := h
+          exact hh.cast (by simp only [target, sizeL]; omega)
+        | true =>
+          simp only [hc] at hh ⊢
+          have toStart : ∀ s σ2, s ≠ Sig.brk → execL S n body σ1 = .ok (s, σ2) →
+              Steps S prog (base + hdrLen cond) σ1 base σ2 := by
+            intro s σ2 hs h1
+            have sb := (hbody σ1).1 _ _ h1
+            cases s with
+            | brk => exact absurd rfl hs
+            | normal =>
+              simp only [target] at sb
+              exact (sb.trans (step_jumpBack hjb (by omega))).cast (by omega)
+            | cont =>
+              simp only [target] at sb
+              exact sb.cast (by omega)
+          constructor
+          · intro sg σ' h
+            rcases Res.loopNext_ok h with ⟨rfl, h1⟩ | ⟨s, σ2, hs, h1, h2⟩
+            · exact (hh.trans ((hbody σ1).1 _ _ h1)).cast (by simp only [target, sizeL]; omega)
+            · exact (hh.trans (toStart s σ2 hs h1)).trans ((hself σ2).1 _ _ h2)
+          · intro h
+            rcases Res.loopNext_eq_err h with h1 | ⟨s, σ2, hs, h1, h2⟩
+            · exact hh.fails ((hbody σ1).2 h1)
+            · exact (hh.trans (toStart s σ2 hs h1)).fails ((hself σ2).2 h2)
+
+/-! ## closed code: `brk` / `cont` only inside loops -/
+
+/-- `brk` / `cont` occur only inside a `loop` (or anywhere, when `inLoop`) -/
+def closedL (inLoop : Bool) : LCode → Bool
+  | .base _ => true
+  | .seq a b => closedL inLoop a && closedL inLoop b
+  | .ifElse _ t _ e => closedL inLoop t && closedL inLoop e
+  | .loop _ body => closedL true body
+  | .brk | .cont => inLoop
+
+theorem compileS_closed : ∀ (s : Stmt) (il : Bool) (F : Frame) (code : LCode) (F' : Frame),
+    compileS s il F = some (code, F') → closedL il code = true := by
+  intro s
+  induction s with
+  | expr e =>
+    intro il F code F' h
+    simp only [compileS, bind, Option.bind_eq_some_iff, Prod.exists, pure, Option.some.injEq, Prod.mk.injEq] at h
+    obtain ⟨c, o, F1, _, rfl, _⟩ := h
+    rfl
+  | seq a b iha ihb =>
+    intro il F code F' h
+    simp only [compileS, bind, Option.bind_eq_some_iff, Prod.exists, pure, Option.some.injEq, Prod.mk.injEq] at h
+    obtain ⟨ca, F1, ha, cb, F2, hb, rfl, _⟩ := h
+    simp [closedL, iha il F ca F1 ha, ihb il F1 cb F2 hb]
+  | ite c t e iht ihe =>
+    intro il F code F' h
+    simp only [compileS, bind, Option.bind_eq_some_iff, Prod.exists, pure, Option.some.injEq, Prod.mk.injEq] at h
+    obtain ⟨cc, rc, F1, _, ct, F2, ht, ce, F3, he, rfl, _⟩ := h
+    simp [closedL, iht il F1 ct F2 ht, ihe il F2 ce F3 he]
+  | ifThen c t iht =>
+    intro il F code F' h
+    simp only [compileS, bind, Option.bind_eq_some_iff, Prod.exists, pure, Option.some.injEq, Prod.mk.injEq] at h
+    obtain ⟨cc, rc, F1, _, ct, F2, ht, rfl, _⟩ := h
+    simp [closedL, iht il F1 ct F2 ht]
+  | loop cond b ihb =>
+    intro il F code F' h
+    simp only [compileS, bind, Option.bind_eq_some_iff, Prod.exists, pure, Option.some.injEq, Prod.mk.injEq] at h
+    obtain ⟨hdr, F1, _, cb, F2, hb, rfl, _⟩ := h
+    simp [closedL, ihb true F1 cb F2 hb]
+  | brk | cont =>
+    intro il F code F' h
+    simp only [compileS] at h
+    split at h
+    · rename_i hil; simp at h; obtain ⟨rfl, _⟩ := h; simpa [closedL] using hil
+    · cases h
+
+/-- closed code never ends with a pending `brk` / `cont` -/
+theorem execL_closed_normal : ∀ (n : Nat) (c : LCode), closedL false c = true →
+    ∀ (σ σ' : Regs S) (sg : Sig), execL S n c σ = .ok (sg, σ') → sg = .normal := by
+  intro n
+  induction n with
+  | zero => intro c _ σ σ' sg h; simp [execL] at h
+  | succ n ih =>
+    intro c hcl σ σ' sg h
+    cases c with
+    | base c =>
+      rw [execL_base] at h
+      cases he : exec S c σ with
+      | none => simp [he] at h
+      | some σ1 => simp only [he, Res.ok.injEq, Prod.mk.injEq] at h; exact h.1.symm
+    | brk => simp [closedL] at hcl
+    | cont => simp [closedL] at hcl
+    | seq a b =>
+      simp only [closedL, Bool.and_eq_true] at hcl
+      rw [execL_seq] at h
+      rcases Res.andThen_ok h with ⟨σ1, _, h2⟩ | ⟨hne, h1⟩
+      · exact ih b hcl.2 σ1 σ' sg h2
+      · exact absurd (ih a hcl.1 σ σ' sg h1) hne
+    | ifElse r t wj e =>
+      simp only [closedL, Bool.and_eq_true] at hcl
+      rw [execL_ifElse] at h
+      split at h
+      · rcases Res.andThen_ok h with ⟨σ1, _, h2⟩ | ⟨hne, h1⟩
+        · split at h2
+          · simp only [Res.ok.injEq, Prod.mk.injEq] at h2; exact h2.1.symm
+          · exact ih e hcl.2 σ1 σ' sg h2
+        · exact absurd (ih t hcl.1 σ σ' sg h1) hne
+      · exact ih e hcl.2 σ σ' sg h
+    | loop cond body =>
+      rw [execL_loop] at h
+      cases hc : execCond S cond σ with
+      | none => simp [hc] at h
+      | some p =>
+        obtain ⟨go, σ1⟩ := p
+        cases go with
+        | false => simp only [hc, Res.ok.injEq, Prod.mk.injEq] at h; exact h.1.symm
+        | true =>
+          simp only [hc] at h
+          rcases Res.loopNext_ok h with ⟨rfl, _⟩ | ⟨s, σ2, _, _, h2⟩
+          · rfl
+          · exact ih _ hcl σ2 σ' sg h2
+
+/-- **flattenL is correct**: whenever the structured code completes, the flat stream run from pc 0
+falls off its end (pc = length) with the same registers, for every sufficiently large fuel -/
+theorem flattenL_ok {c : LCode} (hcl : closedL false c = true) {n : Nat} {σ σ' : Regs S} {sg : Sig}
+    (h : execL S n c σ = .ok (sg, σ')) :
+    sg = .normal ∧ ∃ m, ∀ K, m ≤ K → execLFlat S (flattenL c) K 0 σ = .ok σ' := by
+  have hsg := execL_closed_normal n c hcl σ σ' sg h
+  subst hsg
+  refine ⟨rfl, ?_⟩
+  obtain ⟨m, hm⟩ := (flat_sim n c 0 0 (flattenL c) 0 σ (At.whole _) (Nat.le_refl _)).1 _ _ h
+  refine ⟨m + 1, fun K hK => ?_⟩
+  obtain ⟨K', rfl⟩ : ∃ K', K = m + (K' + 1) := ⟨K - m - 1, by omega⟩
+  rw [hm]
+  have hlen : target 0 0 0 c Sig.normal = (flattenL c).length := by
+    simp only [target, flattenL, sizeL_flatAux, Nat.zero_add]
+  rw [hlen]
+  simp [execLFlat]
+
+/-- a fault of the structured code is a fault of the flat stream -/
+theorem flattenL_err {c : LCode} {n : Nat} {σ : Regs S} (h : execL S n c σ = .err) :
+    ∃ m, ∀ K, m ≤ K → execLFlat S (flattenL c) K 0 σ = .err := by
+  obtain ⟨m, hm⟩ := (flat_sim n c 0 0 (flattenL c) 0 σ (At.whole _) (Nat.le_refl _)).2 h
+  refine ⟨m, fun K hK => ?_⟩
+  obtain ⟨K', rfl⟩ : ∃ K', K = m + K' := ⟨K - m, by omega⟩
+  exact hm K'
 
 end KotoVerif.Compile
